@@ -42,6 +42,12 @@ enum Kind {
     BadLiteral,
     OpenComment,
     LetPattern,
+    // a word that needs a name after it is followed by a literal (possibly in the enclosing source, when the
+    // word is the last token of an included file or of injected text): the word itself is blamed
+    NeedsNameDef,
+    NeedsNameVar,
+    // the instruction budget runs out at the culprit token (the limit is measured per case)
+    InsnLimit,
 }
 
 impl Kind {
@@ -61,6 +67,9 @@ impl Kind {
             Kind::BadLiteral => "bad-literal",
             Kind::OpenComment => "open-comment",
             Kind::LetPattern => "let-pattern",
+            Kind::NeedsNameDef => "needs-name-def",
+            Kind::NeedsNameVar => "needs-name-var",
+            Kind::InsnLimit => "insn-limit",
         }
     }
     fn culprit(self) -> &'static str {
@@ -79,6 +88,9 @@ impl Kind {
             Kind::BadLiteral => "\"ab\r\ncd\"",
             Kind::OpenComment => "\\( never\nclosed\r\n 2 drop",
             Kind::LetPattern => "\"ab\ncd\"",
+            Kind::NeedsNameDef => ":",
+            Kind::NeedsNameVar => "var",
+            Kind::InsnLimit => "depth",
         }
     }
     fn args(self) -> &'static str {
@@ -94,6 +106,8 @@ impl Kind {
             Kind::MultiLine => "\"ab\r\ncd\nef\" ",
             Kind::BadLiteral | Kind::OpenComment => "",
             Kind::LetPattern => "\"zz\" let ",
+            Kind::NeedsNameDef | Kind::InsnLimit => "",
+            Kind::NeedsNameVar => "7 ",
         }
     }
     fn expect_err(self) -> &'static str {
@@ -107,6 +121,8 @@ impl Kind {
             Kind::Foreach => "TypeNotSupported",
             Kind::BadLiteral | Kind::OpenComment => "ParseError",
             Kind::LetPattern => "AssertEqFailed",
+            Kind::NeedsNameDef | Kind::NeedsNameVar => "ExpectingName",
+            Kind::InsnLimit => "",
         }
     }
 }
@@ -228,6 +244,15 @@ fn templates() -> Vec<Tpl> {
     add("def", "multiline-token", &[Kind::BadLiteral], &[": w1 ^@x ;"], None, None, Src(0), 0);
     add("top", "multiline-token", &[Kind::OpenComment], &["1 drop ^@"], None, None, Src(0), 0);
     add("src1", "multiline-token", &[Kind::OpenComment], &["1 var q", "q drop\n ^@"], None, None, Src(1), 1);
+    let nn = [Kind::NeedsNameDef, Kind::NeedsNameVar];
+    add("top", "needs-name", &nn, &["1 drop {A}^@ 5 6"], None, None, Src(0), 0);
+    add("end-of-source", "needs-name", &nn, &["1 drop {A}^@"], None, None, Src(0), 0);
+    add("end-of-file", "needs-name", &nn, &["include \"{F}\" 5 6"], Some("1 drop {A}^@"), None, File, 0);
+    add("end-of-file-eol", "needs-name", &nn, &["1 drop include \"{F}\"\n5"], Some("{A}^@\n"), None, File, 0);
+    add("end-of-injected-text", "needs-name", &nn, &["1 drop #( \"{I}\" ~) 5 6"], None, Some("{A}^@"), Inject, 0);
+    add("top", "insn-limit", &[Kind::InsnLimit], &["1 drop 2 drop ^@ drop 3 drop"], None, None, Src(0), 0);
+    add("def", "insn-limit", &[Kind::InsnLimit], &[": w1 1 drop ^@ drop ; w1 2 drop"], None, None, Src(0), 0);
+    add("loop", "insn-limit", &[Kind::InsnLimit], &["2 0 do I drop loop ^@ drop"], None, None, Src(0), 0);
     add("top", "multiline-token", &[Kind::LetPattern], &["1 drop ^{A}@ 2 drop"], None, None, Src(0), 0);
     add("def", "multiline-token", &[Kind::LetPattern], &[": w1 ^{A}@ ; w1"], None, None, Src(0), 0);
     v
@@ -402,11 +427,38 @@ fn submit(xs: &mut Xstate, s: &str, drive: usize) -> Xresult {
     }
 }
 
-fn run_case(base: &Xstate, b: &Built, fail_at: usize, path: &str, drive: usize) -> Result<Observed, String> {
+fn run_case(base: &Xstate, b: &Built, fail_at: usize, path: &str, drive: usize, recording: bool, limit_at: Option<(usize, usize)>) -> Result<Observed, String> {
     if let Some(f) = &b.file {
         std::fs::write(path, f).map_err(|e| format!("MACHINERY cannot write {}: {}", path, e))?;
     }
     let mut xs = base.clone();
+    xs.set_recording_enabled(recording);
+    if let Some(range) = limit_at {
+        // how many instructions run before the one compiled from the culprit token: measured by stepping an
+        // unconstrained copy until the current instruction's location is that token
+        let mut probe = xs.clone();
+        let mut n = 0usize;
+        let counted = guarded(|| -> Result<bool, Xerr> {
+            probe.compile(&b.srcs[0])?;
+            while probe.is_running() {
+                if let Some(l) = probe.location_from_current_ip() {
+                    if (l.token.range().start, l.token.range().end) == range {
+                        return Ok(true);
+                    }
+                }
+                probe.next()?;
+                n += 1;
+                if n > 10_000 {
+                    break;
+                }
+            }
+            Ok(false)
+        });
+        match counted {
+            Ok(Ok(true)) => xs.set_insn_limit(Some(n)).map_err(|e| format!("MACHINERY set_insn_limit: {:?}", e))?,
+            other => return Err(format!("MACHINERY C17 insn-limit template: the culprit instruction was not reached while stepping ({:?})", other.map(|r| r.map_err(|e| err_kind(&e))))),
+        }
+    }
     let mut results = vec![];
     for (i, s) in b.srcs.iter().enumerate() {
         let r = guarded(|| submit(&mut xs, s, drive)).map_err(|p| format!("panic in {} #{}: {}", DRIVES[drive], i, p))?;
@@ -516,7 +568,7 @@ pub fn run(cfg: &Cfg) -> i32 {
         machinery_error("C17: scratch directory path needs escaping");
     }
     ev.rule = format!(
-        "{} templates x every layout string of 0..={} atoms over {:?} ({} strings) x 3 ways of submitting the sources (eval, compile+run, compile+next*); plus two failures inside one single-stepped program (5 second culprits x layouts of 0..=3 atoms); non-trivial = the culprit token is not at line 0 / column 0 of its source and its column differs from its byte offset in the line or its line is > 0",
+        "{} templates x every layout string of 0..={} atoms over {:?} ({} strings) x 3 ways of submitting the sources (eval, compile+run, compile+next*) x reverse recording off/on; plus two failures inside one single-stepped program (5 second culprits x layouts of 0..=3 atoms); non-trivial = the culprit token is not at line 0 / column 0 of its source and its column differs from its byte offset in the line or its line is > 0",
         tpls.len(),
         max_len,
         ATOM_NAMES,
@@ -553,9 +605,11 @@ pub fn run(cfg: &Cfg) -> i32 {
                 let b = build_case(t, layout, &path, base_n);
                 let exp = oracle(&b.ctext, b.coff, t.kind.culprit());
                 let weight = (b.srcs.iter().map(|s| s.len()).sum::<usize>() + b.file.as_ref().map(|f| f.len()).unwrap_or(0)) as u64 + 10_000 * layout.len() as u64;
-                for drive in 0..DRIVES.len() {
+                for drive_rec in 0..DRIVES.len() * 2 {
+                let (drive, recording) = (drive_rec / 2, drive_rec % 2 == 1);
                 n_cases += 1;
-                let obs = match run_case(&base, &b, t.fail_at, &path, drive) {
+                let limit_at = if t.kind == Kind::InsnLimit { Some(exp.range) } else { None };
+                let obs = match run_case(&base, &b, t.fail_at, &path, drive, recording, limit_at) {
                     Ok(o) => o,
                     Err(p) if p.starts_with("MACHINERY") => machinery_error(&p),
                     Err(p) => {
@@ -566,7 +620,8 @@ pub fn run(cfg: &Cfg) -> i32 {
                 n_evals += obs.results.len() as u64;
                 // the template must fail where and how it was designed to
                 let ok_prefix = obs.results.len() == t.fail_at + 1 && obs.results[..t.fail_at].iter().all(|r| r == "Ok");
-                if !ok_prefix || !obs.results[t.fail_at].starts_with(t.kind.expect_err()) {
+                let want_err = if t.kind == Kind::InsnLimit { limit_kinds().0.clone() } else { t.kind.expect_err().to_string() };
+                if !ok_prefix || !obs.results[t.fail_at].starts_with(&want_err) {
                     bump(&mut local, "unexpected-result");
                     let mut u = unexpected.lock().unwrap();
                     if u.len() < 5 {
@@ -600,8 +655,9 @@ pub fn run(cfg: &Cfg) -> i32 {
                 let line_end = b.ctext[b.coff..].find(|c| c == '\n' || c == '\r').map(|i| b.coff + i).unwrap_or(b.ctext.len());
                 let fam = t.family;
                 let fail = |key: String, what: String| {
-                    let (key, what) = if drive == 0 { (key, what) } else { (format!("{}|{}", key, DRIVES[drive]), format!("{} (sources submitted as {})", what, DRIVES[drive])) };
-                    rep.report_w(&key, weight + drive as u64, || case_json(t, &b, layout, &path, &exp, Some(&obs), &what));
+                    let mode = format!("{}{}", DRIVES[drive], if recording { ", reverse recording on" } else { "" });
+                    let (key, what) = if drive_rec == 0 { (key, what) } else { (format!("{}|{}", key, mode), format!("{} (sources submitted as {})", what, mode)) };
+                    rep.report_w(&key, weight + drive_rec as u64, || case_json(t, &b, layout, &path, &exp, Some(&obs), &what));
                 };
                 match &obs.loc {
                     None => fail(format!("none:{}/{}", fam, t.name), "no location reported for a failing source".into()),
